@@ -66,11 +66,76 @@ def zinc_ref(symbolic=True):
         import os
         path = os.path.join(os.path.dirname(os.path.abspath(__file__)), 'spec', 'zinc_ref.py')
         if symbolic and z3 is not None:
-            _REF[key] = instr.load_instrumented(path, 'symref_zinc')
+            _REF[key] = instr.load_instrumented(path, 'symref_pkg.zinc_ref')
         else:
             import importlib
             _REF[key] = importlib.import_module('vf.spec.zinc_ref')
     return _REF[key]
+
+
+def json_ref(symbolic=True):
+    key = 'jsym' if symbolic else 'jplain'
+    if key not in _REF:
+        import os
+        path = os.path.join(os.path.dirname(os.path.abspath(__file__)), 'spec', 'json_ref.py')
+        if symbolic and z3 is not None:
+            zinc_ref(True)
+            _REF[key] = instr.load_instrumented(path, 'symref_pkg.json_ref')
+        else:
+            import importlib
+            _REF[key] = importlib.import_module('vf.spec.json_ref')
+    return _REF[key]
+
+
+def json_writer_vs_reference(hz, g, multi, symbolic):
+    """C06: the JSON-ready tree of the real writer, decoded by the independent reference decoder"""
+    from . import neutral
+    ref = json_ref(symbolic)
+    jd = sys.modules['hszinc.jsondumper']
+    if symbolic:
+        tree = [jd._dump_grid_to_json(g), jd._dump_grid_to_json(g)] if multi else jd._dump_grid_to_json(g)
+    else:
+        tree = json.loads(hz.dump([g, g] if multi else g, mode=hz.MODE_JSON))     # the real JSON text must itself be valid JSON
+    if multi:
+        if not isinstance(tree, list) or len(tree) != 2:
+            return 'a list of grids is not written as a JSON array of two grid objects', True
+    shape = check_json_shape(tree[0] if multi else tree, str(g.version))
+    if shape is not None:
+        return shape, True
+    try:
+        trees = ref.decode_document(tree)
+    except ref.RefReject as e:
+        return 'the reference decoder rejects the output (%s)' % e, True
+    want = neutral.to_neutral(hz, g)
+    f = True
+    for t in trees:
+        f = b_and(f, neutral.same(want, t, dict(ordered_dict=False, six_decimals=True)))
+    if f is False:
+        return 'the reference decoder recovers a different grid', True
+    return None, f
+
+
+def check_json_shape(tree, version):
+    if not isinstance(tree, dict) or sorted(tree.keys()) != ['cols', 'meta', 'rows']:
+        return 'grid object keys are not exactly meta/cols/rows'
+    if not isinstance(tree['meta'], dict) or tree['meta'].get('ver') != version:
+        return 'meta.ver is not the declared version %r' % version
+    if not isinstance(tree['cols'], list) or not all(isinstance(c, dict) and isinstance(c.get('name'), str) for c in tree['cols']):
+        return 'cols is not a list of objects with a name'
+    if not isinstance(tree['rows'], list) or not all(isinstance(r, dict) for r in tree['rows']):
+        return 'rows is not a list of objects'
+    # version-dependent spelling of Remove
+    bad = '-:' if version.startswith('2') else 'x:'
+
+    def scan(t):
+        if isinstance(t, dict):
+            return any(scan(x) for x in t.values())
+        if isinstance(t, list):
+            return any(scan(x) for x in t)
+        return isinstance(t, str) and t == bad
+    if scan(tree):
+        return 'Remove written as %r in a ver %s document' % (bad, version)
+    return None
 
 
 def writer_vs_reference(hz, g, multi, symbolic):
@@ -366,10 +431,10 @@ def run_job(job):
             return ''.join(chr(m.eval(c, model_completion=True).as_long()) for c in cs)
         value = make_payload(hz, kind, s)
         g = build_grid(hz, position, value, version)
-        if assertion == 'zincref':
+        if assertion in ('zincref', 'jsonref'):
             try:
                 with contextlib.redirect_stdout(io.StringIO()):
-                    msg, f = writer_vs_reference(hz, g, multi, True)
+                    msg, f = (writer_vs_reference if assertion == 'zincref' else json_writer_vs_reference)(hz, g, multi, True)
             except Exception as e:
                 return ('cex', 'writer raised %s' % type(e).__name__, model())
             stats['reached'] += 1
@@ -486,11 +551,11 @@ def run_catalog(job):
 def check_concrete(hz, job, value, position):
     fmt, version = job['fmt'], job['version']
     multi = job.get('multi', False)
-    if job.get('assert') == 'zincref':
+    if job.get('assert') in ('zincref', 'jsonref'):
         g = build_grid(hz, position, value, version)
         try:
             with contextlib.redirect_stdout(io.StringIO()):
-                msg, f = writer_vs_reference(hz, g, multi, False)
+                msg, f = (writer_vs_reference if job['assert'] == 'zincref' else json_writer_vs_reference)(hz, g, multi, False)
         except Exception as e:
             return 'writer raised %s: %s' % (type(e).__name__, str(e)[:200])
         if msg is None and f is not True:
